@@ -98,7 +98,9 @@ fn run_read_plan(p: &Value, tr: &mut Tracer) {
     let max = p.get("maxreads").and_then(|x| x.as_u64()).unwrap_or(8);
     for _ in 0..max {
         let r = do_read(&script, &mut l);
-        let stop = r.res != "ok";
+        // a slow-path frame without the X.224 data header is refused by the X.224 layer, but the framing below stays in
+        // step (the frame was consumed whole): the frames that follow must still come out exactly
+        let stop = r.res != "ok" && !(layer == "x224" && r.ek == "InvalidConst");
         tr.event(json!({"ev": "read", "res": r.res, "ek": r.ek, "kind": r.kind, "sec": r.sec, "payload": r.payload, "consumed": r.consumed, "sys": r.sys}));
         if stop { break; }
     }
